@@ -6,7 +6,7 @@
 From Coq Require Import String List ZArith NArith Bool.
 Import ListNotations.
 From Selfies Require Import Base Generated Atoms Grammar Decoder PySet Matching Smiles Kekulize Encoder
-  IndexSpec IndexCode Reader RoundTrip EncoderFacts PureFacts EncCount.
+  IndexSpec IndexCode Reader RoundTrip EncoderFacts PureFacts EncCount EncOutcomes.
 Local Open Scope string_scope.
 
 (* the strict check raises iff some atom's bond count exceeds its capacity
@@ -49,6 +49,25 @@ Theorem C06_strict_check_iff_bond_order_sum_over_capacity : forall T smiles attr
    exists k a at_ cap, nth_error (m_atoms m1) k = Some (a, at_) /\ bonding_capacity T a = Ok cap /\ (2 * cap < tot m1 k)%Z).
 Proof. exact strict_check_iff_bond_sum. Qed.
 
+(* the property's first two clauses at the level of encoder() itself, for every SMILES the reader and kekulize accept
+   and every table with a '?' entry: strict=True raises EncoderError iff some atom's bond-order sum exceeds
+   2*(capacity - explicit H) and otherwise returns; strict=False returns *)
+Theorem C06_strict_encoder_raises_iff_over_capacity : forall T smiles attribute m0 m1,
+  (exists v, assoc (lit "?") T = Some v) ->
+  smiles_to_mol smiles attribute = Ok m0 -> kekulize m0 = Ok (Some m1) ->
+  ((exists r, encoder T smiles true attribute = Ok r) \/ encoder T smiles true attribute = Err EncoderError) /\
+  (encoder T smiles true attribute = Err EncoderError <->
+   exists k a at_ cap, nth_error (m_atoms m1) k = Some (a, at_) /\ bonding_capacity T a = Ok cap /\ (2 * cap < tot m1 k)%Z) /\
+  (exists r, encoder T smiles false attribute = Ok r).
+Proof.
+  intros T smiles attribute m0 m1 Hq Ep Ek.
+  destruct (encoder_fails_iff_strict_check T smiles true attribute m0 m1 Hq Ep Ek) as [A B].
+  destruct (encoder_fails_iff_strict_check T smiles false attribute m0 m1 Hq Ep Ek) as [C D].
+  split; [exact A|]. split.
+  - rewrite B. rewrite <- (strict_check_iff_bond_sum T smiles attribute m0 m1 Hq Ep Ek). tauto.
+  - destruct C as [C|C]; [exact C|]. apply D in C. destruct C; discriminate.
+Qed.
+
 Example C06_bond_sum_example :
   match smiles_to_mol (lit "c1ccccc1C(F)(F)(F)(F)F") false with
   | Ok m0 => match kekulize m0 with
@@ -61,5 +80,6 @@ Proof. vm_compute. reflexivity. Qed.
 Print Assumptions C06_strict_check_iff_over_capacity.
 Print Assumptions C06_counts_are_bond_order_sums.
 Print Assumptions C06_strict_check_iff_bond_order_sum_over_capacity.
+Print Assumptions C06_strict_encoder_raises_iff_over_capacity.
 Print Assumptions C06_nonstrict_ignores_table.
 Print Assumptions C06_strict_depends_on_lookup_pointwise.
